@@ -31,8 +31,15 @@ SWAP-SEM - DepGraph.remove_node (used by Scheduler through flatten / graft)
 keeps every edge between the remaining nodes (index-class interpretation,
 see C16). BACKEND-STATELESS - an attribute of the backend filled while scheduling is
 reset by execute_tasks (nothing of one run decides in the next).
+TOPO - the master examines the tasks in a topological order of the graph
+that gives `deps` to the decision, and does not re-order the sorted list (on
+a restored environment a DONE task would be examined, and its dependents
+released, before the dependency that the same pass resets).
 ENQ-INPUTS - no argument bound to the decision before the atomic region is
 computed from the environment (no status / clock read hoisted out of it).
+STATUS-WRITERS - in the backends a task status is written only by the
+decision function (REL rows), by the master loop in front of it (REL prelude
+rows) and by the worker around Task.do (WRK): no other transition exists.
 Not decided: other backends, fairness, the behaviour of Task.do itself.
 '''
 ASSUMPTIONS = [
@@ -53,6 +60,8 @@ def check(ctx):
     ctx.run(sched_rel.check_decision_inputs)
     ctx.run(sched_worker.check_backend_stateless)
     ctx.run(depgraph.check_swap_sem)
+    ctx.run(sched_rel.check_topo)
+    ctx.run(sched_rel.check_status_writers)
     ctx.run(patterns.check_patterns, ID)
 
 
